@@ -137,6 +137,17 @@ def run_sequences(out, rnd, n):
                 texts.append(await apis[t2].run(kind, c["args"], [bytes.fromhex(r) for r in c["replies"]], c["now"])); cases.append(c)
         return cases, texts
     cases, it = asyncio.run(go())
+    async def runs_of_bad_replies():
+        cases2 = []; texts2 = []
+        for _ in range(max(6, n // 3)):
+            kind = rnd.choice([9, 10, 11]); t2 = kind in world.TYPE2_KINDS; api = world.ScriptedApi(t2, "%06x" % rnd.randrange(1 << 24), "18")
+            good = world.rand_op_case(rnd, kind, accepted_args=True); bad = bytes.fromhex(good["replies"][1])[:rnd.choice([0, 1, 30, 60, 74])] if rnd.random() < .6 else world.rand_bytes(rnd, rnd.randrange(1, 70))
+            plan = rnd.choice([["good", "bad", "bad"], ["bad", "bad", "bad", "bad"], ["good", "bad", "bad", "bad", "good", "bad"]])
+            for what in plan:           # the SAME unparsable bytes every time: a device that keeps sending a short frame
+                c = dict(good, replies=[good["replies"][0], good["replies"][1] if what == "good" else bad.hex()], id=api.api._device_id, key=api.api._device_key)
+                texts2.append(await api.run(kind, c["args"], [bytes.fromhex(r) for r in c["replies"]], c["now"])); cases2.append(c)
+        return cases2, texts2
+    c2, t2_ = asyncio.run(runs_of_bad_replies()); cases += c2; it += t2_
     io = [view(t) for t in it]
     mo = [view(t) for t in lib.run_model([world.model_line(c) for c in cases])]
     lib.differential(out, "sequences-on-one-object", cases, io, mo, ["ok"] * len(cases), oc.describe, nontrivial=lambda c: c["replies"][0] == "",
